@@ -589,3 +589,41 @@ def level_b_runs(ctx, z, root, world, initial, knobs, seed, rng, tier, stats, fa
             v["replay"] = {"level": "B", "world": world, "cfg": c2, "tier": tier}
             violations.append(v)
     return evaluations, violations
+
+
+def shrink_candidates(rp: dict):
+    import copy
+
+    from vsim.shrink import list_candidates
+
+    if rp.get("level") == "A":
+        plan = rp.get("plan") or []
+        if len(plan) > 1:
+            for p in list_candidates(plan):
+                r = copy.deepcopy(rp)
+                r["plan"] = p
+                yield "drop fault", r
+        others = sorted(k for k in rp["world"]["meta"] if k != rp["target"])
+        for keep in list_candidates(others):
+            r = copy.deepcopy(rp)
+            for k in set(others) - set(keep):
+                r["world"]["files"].pop(k, None)
+                r["world"]["meta"].pop(k, None)
+            yield "drop other files", r
+        for knob, val in (("rawmax", 0), ("bufsize", 8192)):
+            if rp["world"]["knobs"].get(knob) != val:
+                r = copy.deepcopy(rp)
+                r["world"]["knobs"][knob] = val
+                yield "%s=%s" % (knob, val), r
+    else:
+        cfg = rp["cfg"]
+        from vsim.shrink import tape_candidates
+
+        for t in tape_candidates(cfg.get("tape") or []):
+            r = copy.deepcopy(rp)
+            r["cfg"]["tape"] = t
+            yield "tape", r
+        if cfg["processes"] > 1:
+            r = copy.deepcopy(rp)
+            r["cfg"]["processes"] = 1
+            yield "serial", r
